@@ -1,5 +1,27 @@
--- Root of the library: model, generated parts and one theorem file per property.
+-- Root of the library: C semantics, models (generated parts are produced by tools/gen before the build),
+-- helper lemmas and one theorem file per property.
 import Munge.C.Int
 import Munge.C.Kernel
 import Munge.C.Hex
 import Munge.Model.Base64
+import Munge.Model.Cred
+import Munge.Model.ToyPrims
+import Munge.Model.PrimLaws
+import Munge.Model.SpecV3
+import Munge.Lemmas.ToyLaws
+import Munge.Props.C01
+import Munge.Props.C02
+import Munge.Props.C03
+import Munge.Props.C04
+import Munge.Props.C05
+import Munge.Props.C06
+import Munge.Props.C07
+import Munge.Props.C08
+import Munge.Props.C09
+import Munge.Props.C10
+import Munge.Props.C12
+import Munge.Props.C14
+import Munge.Props.C16
+import Munge.Props.C18
+import Munge.Props.C19
+import Munge.Props.C20
